@@ -44,27 +44,27 @@ example : check [70] false (.int 1) = false := by decide
 pattern accepts a value with the checks enabled, the same pattern used in a `match` arm selects
 that value, with exactly the same bindings. -/
 theorem bindArg_ok_imp_patM : ∀ k,
-    (∀ p v s s1, bindArg true k p v s = (.ok .null, s1) → patM k p v s = (.yes, s1)) ∧
-    (∀ ps vs s s1, bindArgs true k ps vs s = (.ok .null, s1) → patsM k ps vs s = (.yes, s1)) := by
+    (∀ p v s s1 w, bindArg true k p v s = (.ok w, s1) → patM k p v s = (.yes, s1)) ∧
+    (∀ ps vs s s1 w, bindArgs true k ps vs s = (.ok w, s1) → patsM k ps vs s = (.yes, s1)) := by
   intro k
   induction k with
-  | zero => exact ⟨fun p v s s1 h => by simp [bindArg] at h, fun ps vs s s1 h => by simp [bindArgs] at h⟩
+  | zero => exact ⟨fun p v s s1 w h => by simp [bindArg] at h, fun ps vs s s1 w h => by simp [bindArgs] at h⟩
   | succ k ih =>
     constructor
-    · intro p v s s1 hb
+    · intro p v s s1 w hb
       cases p with
       | b x h =>
         cases h with
         | none =>
           simp only [bindArg, bindOne, assertHint] at hb
           simp only [patM]
-          simpa using hb
+          simp at hb; simp [hb.2]
         | some h =>
           cases hc : check h.name h.opt v
           · simp [bindArg, bindOne, assertHint, hc] at hb
           · simp only [bindArg, bindOne, assertHint, hc] at hb
             simp only [patM, hc]
-            simpa using hb
+            simp at hb; simp [hb.2]
       | lit n => simp [bindArg] at hb
       | tup ps =>
         simp only [bindArg] at hb
@@ -72,28 +72,47 @@ theorem bindArg_ok_imp_patM : ∀ k,
         all_goals
           simp only [patM, sized]
           split at hb
-          · next hl => rw [if_pos hl]; exact ih.2 _ _ _ _ hb
+          · next hl => rw [if_pos hl]; exact ih.2 _ _ _ _ _ hb
           · simp at hb
-    · intro ps vs s s1 hb
+    · intro ps vs s s1 w hb
       cases ps with
       | nil =>
         simp only [bindArgs] at hb
         simp only [patsM]
-        simpa using hb
+        simp at hb; simp [hb.2]
       | cons p ps =>
         simp only [bindArgs, andThen] at hb
         simp only [patsM]
         generalize hr : bindArg true k p (vs.headD .null) s = r at hb
         obtain ⟨r1, s2⟩ := r
         cases r1 with
-        | ok w =>
+        | ok w' =>
           simp only at hb
-          have hw : w = .null := by
-            have := (good_bindArg k).1 p (vs.headD .null)
-            sorry
-          sorry
+          rw [ih.1 _ _ _ _ _ hr]
+          exact ih.2 _ _ _ _ _ hb
         | ret w => simp at hb
         | err e => simp at hb
         | stuck c => simp at hb
+
+/-- non-vacuity: a nested hinted argument pattern accepts a tuple in assert mode -/
+example : (match (bindArg true 6 (.tup [.b (some 0) (some ⟨kindName .tuple, false⟩), .b none none])
+    (.tuple [.tuple [], .int 1]) {}).1 with | .ok _ => true | _ => false) = true := by decide
+
+/-- lifted to a whole arm: argument patterns that accept the call's values in assert mode make the
+single-alternative `match` arm with the same patterns select them, with the same bindings -/
+theorem bindArgs_ok_imp_arm_selected (k : Nat) (ps : List P) (vs : List V) (s s1 : St) (w : V)
+    (hb : bindArgs true k ps vs s = (.ok w, s1)) : armM k [ps] vs s = (.yes, s1) := by
+  simp [armM, altsM, (bindArg_ok_imp_patM k).2 ps vs s s1 w hb]
+
+/-- **Typed `catch` and `match` use the same check.** A typed catch block `catch y: T` is entered
+exactly when the match pattern `y: T` selects the caught value, and then binds it identically;
+otherwise the state reaches the next block unchanged, as a failed pattern leaves it. -/
+theorem catch_agrees_with_match (j : Nat) (cv : V) (y : Option Var) (h : Hint) (body : Expr)
+    (rest : List CatchArm) (x : Option Var) (final : Expr) (s : St) :
+    selectCatch cv (.mk y h body :: rest) x final s =
+      match patM (j + 1) (.b y (some h)) cv s with
+      | (.yes, s1) => (body, s1)
+      | (_, s1) => selectCatch cv rest x final s1 := by
+  cases hc : check h.name h.opt cv <;> simp [selectCatch, patM, hc]
 
 end KotoVerif.C16Ext2
